@@ -1167,3 +1167,84 @@ Proof.
         cbn [concat length] in H. rewrite app_length, firstn_length, !skipn_length in H.
         rewrite skipn_length in En. lia.
 Qed.
+
+(* ------------------------------------------------------------------ *)
+(* ipp: the group loops end for every body, cut anywhere - at a group boundary too *)
+Section IppLoopsEnd.
+  Variable vdecode : N -> idec -> idec.
+  Hypothesis vd_data : forall t d, i_data (vdecode t d) = i_data d.
+  Hypothesis vd_off : forall t d, (i_off d <= length (i_data d))%nat ->
+    (i_off d <= i_off (vdecode t d) <= length (i_data d))%nat.
+  Hypothesis vd_err : forall t d, i_err d = true -> i_err (vdecode t d) = true.
+
+  Definition ileft (d : idec) : nat := (length (i_data d) - i_off d)%nat.
+  Definition dwf (d : idec) : Prop := (i_off d <= length (i_data d))%nat.
+
+  Lemma i_byte_spec d d1 t :
+    dwf d -> i_byte d = (d1, t) ->
+    i_data d1 = i_data d /\ dwf d1 /\
+    ((i_off d1 = S (i_off d) /\ i_err d1 = i_err d) \/ (i_off d1 = i_off d /\ i_err d1 = true /\ t = 0%N)) /\
+    (i_err d = true -> i_err d1 = true).
+  Proof.
+    unfold i_byte, dwf. destruct (i_off d <? length (i_data d))%nat eqn:E; intros Hw H; inversion H; subst; cbn.
+    - apply Nat.ltb_lt in E. repeat split; auto; lia.
+    - repeat split; auto.
+  Qed.
+
+  Lemma i_unread_spec d : dwf d -> i_data (i_unread d) = i_data d /\ dwf (i_unread d) /\
+    (i_off d <= S (i_off (i_unread d)))%nat /\ (i_err d = true -> i_err (i_unread d) = true).
+  Proof. unfold i_unread, dwf. destruct (i_off d) eqn:E; cbn; intros; repeat split; auto; lia. Qed.
+
+  (* a group: ends within (bytes left + 2) rounds; afterwards either an error is on record or the
+     offset has not gone back *)
+  Lemma ipp_group_ends fuel d :
+    dwf d -> (ileft d + 2 <= fuel)%nat ->
+    exists d', (ipp_group vdecode fuel d = IOk d' \/ ipp_group vdecode fuel d = IErr d') /\
+               i_data d' = i_data d /\ dwf d' /\
+               (i_err d' = false -> (i_off d <= i_off d')%nat /\ i_err d = false) /\
+               (i_err d = true -> i_err d' = true).
+  Proof.
+    revert d; induction fuel as [|f IH]; intros d Hw Hf; [lia|]. cbn [ipp_group].
+    destruct (i_byte d) as [d1 vtag] eqn:E.
+    destruct (i_byte_spec d d1 vtag Hw E) as (A & B & C & D).
+    destruct (5 <? vtag)%N eqn:Ev.
+    - destruct C as [[C1 C2]|[C1 [C2 C3]]]; [|subst vtag; discriminate].
+      destruct (i_err d1) eqn:Ee.
+      + exists d1. repeat split; auto; try congruence.
+      + assert (dwf (vdecode vtag d1)) as Hw' by (unfold dwf in *; rewrite vd_data; apply vd_off; exact B).
+        destruct (IH (vdecode vtag d1) Hw') as (d' & Hr & P1 & P2 & P3 & P4).
+        { unfold ileft in *. rewrite vd_data. pose proof (vd_off vtag d1 B). unfold dwf in *. rewrite A in *. lia. }
+        exists d'. split; [exact Hr|]. rewrite P1, vd_data, A. split; [reflexivity|]. split; [exact P2|].
+        split.
+        * intros He; destruct (P3 He) as [Q1 Q2]. pose proof (vd_off vtag d1 B). split; [lia|congruence].
+        * intros He. apply P4. apply vd_err. congruence.
+    - destruct (i_unread_spec d1 B) as (U1 & U2 & U3 & U4).
+      exists (i_unread d1). split; [left; reflexivity|]. rewrite U1, A. split; [reflexivity|]. split; [exact U2|].
+      split.
+      + intros He. destruct C as [[C1 C2]|[C1 [C2 C3]]].
+        * split; [lia|]. destruct (i_err d) eqn:Ed; [|reflexivity]. rewrite U4 in He; congruence.
+        * rewrite U4 in He; congruence.
+      + intros He. apply U4, D, He.
+  Qed.
+
+  Lemma ipp_groups_ends fuel d :
+    dwf d -> (ileft d + 3 <= fuel)%nat -> ipp_groups vdecode fuel d <> IFuel.
+  Proof.
+    revert d; induction fuel as [|f IH]; intros d Hw Hf; [lia|]. cbn [ipp_groups].
+    destruct (i_byte d) as [d1 dtag] eqn:E.
+    destruct (i_byte_spec d d1 dtag Hw E) as (A & B & C & D).
+    destruct (dtag =? 3)%N; [congruence|].
+    destruct (i_err d1) eqn:Ee; [congruence|].
+    destruct C as [[C1 C2]|[C1 [C2 C3]]]; [|congruence].
+    destruct (ipp_group_ends (S f) d1 B) as (d2 & Hr & P1 & P2 & P3 & P4).
+    { unfold ileft in *. rewrite A. lia. }
+    destruct Hr as [Hr|Hr]; rewrite Hr; [|congruence].
+    destruct (i_err d2) eqn:E2.
+    - (* an error is on record: the next round ends *)
+      destruct f as [|f']; [unfold ileft, dwf in *; rewrite A in *; lia|]. cbn [ipp_groups].
+      destruct (i_byte d2) as [d3 t3] eqn:E3.
+      destruct (i_byte_spec d2 d3 t3 P2 E3) as (_ & _ & _ & D3).
+      destruct (t3 =? 3)%N; [congruence|]. rewrite (D3 E2). congruence.
+    - apply IH; [exact P2|]. destruct (P3 eq_refl) as [Q _]. unfold ileft, dwf in *. rewrite P1, A in *. lia.
+  Qed.
+End IppLoopsEnd.
